@@ -124,7 +124,7 @@ def isOperand : PV.Src.Expr V → Bool
   | _ => false
 
 mutual
-partial def flatS (zero one : V) (negV : V → V) (isOne isZero : V → Bool) (fs : FS) : PV.Src.Stmt V → Option (FS × List (CStmt V))
+partial def flatS (zero one : V) (negV : V → V) (isOne isNeg : V → Bool) (fs : FS) : PV.Src.Stmt V → Option (FS × List (CStmt V))
   | .gassign x e =>
     match e with
     | .gvar _ => none                            -- `x = y` is aliased by the front end: outside the core
@@ -141,23 +141,35 @@ partial def flatS (zero one : V) (negV : V → V) (isOne isZero : V → Bool) (f
     pure (fs1, code ++ [PV.Core.Stmt.store q os])
   | .ite c t e => do
     let (fs1, pre, cnd, neg, oa, ob) ← flatTest zero negV fs c
-    let (fs2, ct) ← flatB zero one negV isOne isZero fs1 t
+    let (fs2, ct) ← flatB zero one negV isOne isNeg fs1 t
     if e.isEmpty then pure (fs2, pre ++ [PV.Core.Stmt.ifThen cnd neg oa ob (seqAll ct)])
     else do
-      let (fs3, ce) ← flatB zero one negV isOne isZero fs2 e
+      let (fs3, ce) ← flatB zero one negV isOne isNeg fs2 e
       pure (fs3, pre ++ [PV.Core.Stmt.ite cnd neg oa ob (seqAll ct) (seqAll ce)])
   | .while c body =>
     match c with
     | .num v =>
       if isOne v then do
-        let (fs1, cb) ← flatB zero one negV isOne isZero fs body
+        let (fs1, cb) ← flatB zero one negV isOne isNeg fs body
         pure (fs1, [PV.Core.Stmt.loop (seqAll cb)])
       else none
     | _ => do
       let (fs1, pre, cnd, neg, oa, ob) ← flatTest zero negV fs c
       if !pre.isEmpty then none else do         -- operands of a loop test must be plain operands (re-evaluated each iteration)
-        let (fs2, cb) ← flatB zero one negV isOne isZero fs1 body
+        let (fs2, cb) ← flatB zero one negV isOne isNeg fs1 body
         pure (fs2, [PV.Core.Stmt.while cnd neg oa ob (seqAll cb)])
+  | .forRange _ x start stop step body => do
+    -- `range` arguments are evaluated once, before the loop; the loop variable lives in the iterator's register; the exit
+    -- test is `bge` (`ble` for a negative constant step) at the loop label and the increment is the last thing in the body
+    let (fs1, c1, o1) ← flatE zero negV fs none start
+    let (fs2, c2, o2) ← flatE zero negV fs1 none stop
+    let (fs3, c3, o3) ← flatE zero negV fs2 none step
+    let (fs4, rx) := fs3.regOf x
+    let down := match o3 with | .num v => isNeg v | _ => false
+    let (c, neg) := if down then ("gt", "le") else ("lt", "ge")
+    let (fs5, cb) ← flatB zero one negV isOne isNeg fs4 body
+    pure (fs5, c1 ++ c2 ++ c3 ++ [PV.Core.Stmt.alu rx "move" [o1],
+      PV.Core.Stmt.while c neg (.reg rx) o2 (seqAll (cb ++ [PV.Core.Stmt.alu rx "add" [.reg rx, o3]]))])
   | .brk => some (fs, [PV.Core.Stmt.brk])       -- the generator only places these inside `while` loops
   | .cont => some (fs, [PV.Core.Stmt.cont])
   | .yield => some (fs, [PV.Core.Stmt.yield])
@@ -165,11 +177,11 @@ partial def flatS (zero one : V) (negV : V → V) (isOne isZero : V → Bool) (f
   | .pass => some (fs, [])
   | _ => none
 
-partial def flatB (zero one : V) (negV : V → V) (isOne isZero : V → Bool) (fs : FS) : List (PV.Src.Stmt V) → Option (FS × List (CStmt V))
+partial def flatB (zero one : V) (negV : V → V) (isOne isNeg : V → Bool) (fs : FS) : List (PV.Src.Stmt V) → Option (FS × List (CStmt V))
   | [] => some (fs, [])
   | s :: rest => do
-    let (fs1, c1) ← flatS zero one negV isOne isZero fs s
-    let (fs2, c2) ← flatB zero one negV isOne isZero fs1 rest
+    let (fs1, c1) ← flatS zero one negV isOne isNeg fs s
+    let (fs2, c2) ← flatB zero one negV isOne isNeg fs1 rest
     pure (fs2, c1 ++ c2)
 end
 
@@ -188,11 +200,11 @@ partial def assignedB : List (PV.Src.Stmt V) → List String
 end
 
 /-- the whole (function-free) program -/
-def flatten (zero one : V) (negV : V → V) (isOne isZero : V → Bool) (p : PV.Src.Program V) : Option (CStmt V) :=
+def flatten (zero one : V) (negV : V → V) (isOne isNeg : V → Bool) (p : PV.Src.Program V) : Option (CStmt V) :=
   if !p.funcs.isEmpty then none else
   let asg := assignedB p.main
   let once := asg.filter (fun x => asg.count x == 1)
-  (flatB zero one negV isOne isZero { once := once } p.main).map (fun r => seqAll r.2)
+  (flatB zero one negV isOne isNeg { once := once } p.main).map (fun r => seqAll r.2)
 
 /-! ### canonical form for comparison: registers renamed by first occurrence -/
 
